@@ -51,5 +51,15 @@ CHECKS = {
         "note": CODEC_NOTE + "The layout spec is transcribed from the property text.",
         "technique": "Lean 4 proof against an independent layout spec + three-way differential run (Go code, Go spec encoder, Lean spec)",
     },
+    "C03": {
+        "text": "The ring buffer model (written after the dependency's source, incl. growth and the split copy) is proved to refine a byte queue for every "
+                "capacity, offset and wrap position (length, peek, retrieve, write; read/peekUintN and the decoder-level geometry/chunking theorems "
+                "are being added); the resumable v1/v2 decoders are modelled statement by statement over that ring. Real ring operations and real "
+                "streaming decodes are compared with the model per operation/per call over every cut position, ring capacities 1..4096 and every "
+                "wrap offset of every header field, and the property (chunked = whole = frame list) is evaluated on the real code.",
+        "design_ref": "DESIGN.md section 7, C03",
+        "note": CODEC_NOTE + "Ring buffer library modelled, not verified. TCP half: runtime (kernel segmentation, net.Conn.Read), partial.",
+        "technique": "Lean 4 refinement proof (ring buffer -> byte queue) + per-operation model/code differential run over geometries and chunkings",
+    },
 }
 NOT_CLAIMED = {}
